@@ -28,5 +28,5 @@ Separate Extraction
   Wasm.set_ecl Wasm.set_version Wasm.qr_unchecked Wasm.qr_svg_unchecked Wasm.color_to_code
   Iso.iso_decode Iso.iso_min_version Iso.iso_codewords Iso.iso_region_map
   Oracles.oracle_fixed Oracles.oracle_labels Oracles.oracle_format Oracles.oracle_rs Oracles.oracle_data_codewords
-  Oracles.oracle_mask Oracles.oracle_mode Oracles.oracle_ec Oracles.vals_of Penalty.oracle_penalty Penalty.oracle_penalty_parts Penalty.oracle_line Oracles.oracle_rs_stream
+  Oracles.oracle_mask Oracles.oracle_mode Oracles.oracle_ec Oracles.vals_of Penalty.oracle_penalty Penalty.oracle_penalty_parts Penalty.oracle_line Oracles.oracle_rs_stream Oracles.oracle_mask_iso
   Xml.xml_parse SvgDoc.expected_doc SvgDoc.cfg_ok.
